@@ -431,6 +431,18 @@ def oracle_one(ctx, c, out):
         return sorttrace_oracle(ctx, c, out)
     if w[0] == 'GSEL':
         return gsel_oracle(ctx, c, out)
+    if w[0] == 'GGRP':
+        vals = list(map(int, w[2:])); EV['GGRP'] += 1
+        if out.startswith('OOB'): return 'pvGroup wrote outside the array'
+        got = list(map(int, out.split()))
+        if sorted(got) != sorted(vals): return 'pvGroup output is not a permutation of the input'
+        seen = set(); prev = None
+        for x in got:
+            if x != prev:
+                if x in seen: return 'after pvGroup equal items are not contiguous: %s' % got[:12]
+                seen.add(x); prev = x
+        if len(vals) >= 3: ctx.nontrivial.add(c)
+        return None
     if w[0] == 'GCYC':
         R_, sh, n_ = int(w[1]), int(w[2]), int(w[3]); vals = list(map(int, w[4:])); EV['GCYC R=%d' % R_] += 1
         if out.startswith('OOB'): return 'cycle-leader loop wrote outside the array'
@@ -597,7 +609,9 @@ def run(ctx):
                               ('Gen_Radix.v', sel2coq.translate_radix, 'code getters, pvGetRadix, first shift of Sort'),
                               ('Gen_RadixCount.v', sel2coq.translate_count, 'counting pass + prefix sums of pvRadixSort'),
                               ('Gen_RadixCycle.v', sel2coq.translate_cycle, 'cycle-leader permutation of pvRadixSort'),
-                              ('Gen_HsGuards.v', sel2coq.translate_guards, 'entry guards of pvFindHash / pvIsSorted')):
+                              ('Gen_HsGuards.v', sel2coq.translate_guards, 'entry guards of pvFindHash / pvIsSorted'),
+                              ('Gen_FindHash.v', sel2coq.translate_findhash, 'interpolation loop of pvFindHash'),
+                              ('Gen_Group.v', sel2coq.translate_group, 'HashSorter::pvGroup')):
         gpath = os.path.join(ctx.cdir, gname)
         try:
             txt = gfun(repo=ctx.repo)
@@ -644,6 +658,13 @@ def run(ctx):
     b, _ = run_oracle(ctx, hradix, radix, 'oracle-radix'); bad += b
     b, _ = run_oracle(ctx, hradix, codeg, 'oracle-codegetter'); bad += b
     gsel_cases = gen_gsel(ctx, scale)
+    # generated pvGroup vs the real private HashSorter::pvGroup (final arrangement)
+    for n_ in range(1, 8):
+        for seq in itertools.product((0, 1, 2), repeat=n_):
+            gsel_cases.append('GGRP %d %s' % (n_, ' '.join(map(str, seq))))
+    for _ in range(300 * scale):
+        n_ = ctx.rng.choice([8, 9, 15, 32, 33, 60]); k_ = ctx.rng.range(1, 7)
+        gsel_cases.append('GGRP %d %s' % (n_, ' '.join(str(ctx.rng.below(k_)) for _ in range(n_))))
     # generated counting pass + generated cycle-leader permutation vs the real private cycle-leader overload (array + swap order)
     for R_ in (1, 2, 3, 8):
         for n_ in range(0, 6 if R_ < 8 else 4):
@@ -712,7 +733,7 @@ def run(ctx):
     allc = leaves + small + longc + sorts + radix + narrow + st_hs + st_rs + big + codeg + gsel_cases + bigm + plumb_h + plumb_r
     for c in (small[len(small) // 2], small[-1], longc[0], sorts[len(sorts) // 3], leaves[5]):
         ctx.add_sample(c[:300])
-    ctx.coverage['input_distribution'] = {k: sum(1 for c in allc if c.startswith(k + ' ')) for k in ('MS', 'SC', 'CMP', 'FH', 'F', 'B', 'S', 'SORT', 'RADIX', 'RADIXP', 'RADIXI', 'HSORT', 'RSORT', 'BIGFIND', 'SCODE', 'UCODE', 'GSEL', 'BIGM', 'GRADIX', 'IPF', 'PCODE', 'GCYC')}
+    ctx.coverage['input_distribution'] = {k: sum(1 for c in allc if c.startswith(k + ' ')) for k in ('MS', 'SC', 'CMP', 'FH', 'F', 'B', 'S', 'SORT', 'RADIX', 'RADIXP', 'RADIXI', 'HSORT', 'RSORT', 'BIGFIND', 'SCODE', 'UCODE', 'GSEL', 'BIGM', 'GRADIX', 'IPF', 'PCODE', 'GCYC', 'GGRP')}
     ctx.coverage['input_distribution'].update({'measured: ' + k: v for k, v in sorted(EV.items())})
     ctx.coverage['max_array_length'] = max([int(c.split()[2]) for c in longc + sorts] + [int(c.split()[1]) for c in big])
     ctx.coverage['radix'] = 'RadixSorter<1..16> x codes of 8/16/32/64 bits x sizes around the selection-sort threshold 2^(R/2+1) + pointers; std sorted() oracle + groupFunc-call oracle'
